@@ -31,6 +31,7 @@ RULE += (' Also: flags at uneven spacing (index-list selection) decoded with bou
 RULE += (' A share of the gridded files is the IOAPI-class object the CAMx gridded READER (uamiv) returns for an image written by the independent codec (whole-hour steps up to 168 h, ETFLAG present, header completed by the class).')
 RULE += (' The module-level decoders coordutil.gettimes / gettimebnds (used by the dump with time strings, the evaluation tool and the ARL writer) are judged on the same files: CF time in the standard calendars (to the millisecond), IOAPI flags with TSTEP-defined upper edges, tau0/tau1.')
 RULE += (" Half of the IOAPI files opened from disk are written here with netCDF4 directly the way the Models-3 I/O API library writes them (netCDF classic 64-bit offset, int32 header integers, float64 grid reals, float32 VGLVLS, TFLAG first, TSTEP the record dimension), independent of the library's writers.")
+RULE += (' CF cases in memory then have their time values re-written in place (shifted by one unit, or reversed and shifted) and are decoded again on the same object against cftime.')
 ASSUMPTIONS = [
     'cftime 1.6.5 is an independent, correct implementation of CF time for '
     'the calendars used (years 1900-2100, so Julian/Gregorian mixing is not '
